@@ -31,8 +31,38 @@ def names_of(topo, kinds):
     return out
 
 
+def compile_grouped(topo, symtype, numeric, compact, declare):
+    """the declared parameters of one kind are handed over as ONE vector (a concatenation of the per-element symbols)"""
+    import casadi as cs
+    from vlib import layout, sx2smt
+
+    P, symbolic = runs.cas_params(topo, symtype, numeric)
+    built = T_.build(topo, P)
+    eng = runs.casadi_engine(symtype)
+    kw = T_.model_kwargs(topo, P)
+    built.net.step(engine=eng, **runs.NOFLAGS, **kw)
+    groups = {}
+    for n in declare:
+        groups.setdefault(n.split("_")[0], []).append(n)
+    params = {g: (cs.vertcat(*[symbolic[n] for n in ns]) if len(ns) > 1 else symbolic[ns[0]]) for g, ns in groups.items()}
+    if "T" in groups:  # the sampling time keeps its documented key
+        params = {("T" if g == "T" else "grp_" + g): v for g, v in params.items()}
+    else:
+        params = {"grp_" + g: v for g, v in params.items()}
+    others = {k: v for k, v in kw.items() if k not in symbolic}
+    F = eng.to_function(built.net, compact=compact, more_out=False, parameters=params, **others)
+    decl = [((("T" if g == "T" else "grp_" + g)), ns) for g, ns in groups.items()]
+    ins, outs = layout.expected(topo, built, compact, decl, False)
+    got_in = [F.size1_in(i) * F.size2_in(i) for i in range(F.n_in())]
+    if got_in != [len(z) for _, z in ins]:
+        raise compiled.LayoutMismatch(f"arguments {[(F.name_in(i), got_in[i]) for i in range(F.n_in())]}; documented layout {[(n, len(z)) for n, z in ins]}")
+    named, info = sx2smt.translate(F, layout.binder(ins))
+    return compiled.Compiled(F, built, symbolic, ins, outs, named, info, numeric)
+
+
 def work(item):
-    tj, symtype, compact, kinds, seed, timeout_ms, reverse = item
+    tj, symtype, compact, kinds, seed, timeout_ms, reverse = item[:7]
+    grouped = len(item) > 7 and item[7]
     topo = T_.Topo.from_json(tj)
     rng = random.Random(seed)
     tag = f"{symtype}/c{compact}/{'+'.join(kinds) or 'none'}"
@@ -47,7 +77,10 @@ def work(item):
     D = [netcheck.apply_numeric(c, vals) for c in ref_metanet.admissible_domain(topo)]
     D = [c for c in D if not z3.is_true(z3.simplify(c))]
     try:
-        A = compiled.compile_terms(topo, symtype, numA, compact, False, None, declare, check_names=True, dual_route=reverse, same_display_names=reverse)
+        if grouped:
+            A = compile_grouped(topo, symtype, numA, compact, declare)
+        else:
+            A = compiled.compile_terms(topo, symtype, numA, compact, False, None, declare, check_names=True, dual_route=reverse, same_display_names=reverse)
         B = compiled.compile_terms(topo, symtype, dict(vals), compact, False, None, [], check_names=True)
     except compiled.LayoutMismatch as e:
         acc.exec_violation(PID, topo, f"casadi[{tag}]", "array", f"layout: {e}", extra={"numeric": numA, "compact": compact})
@@ -60,7 +93,7 @@ def work(item):
         return acc.done()
     acc.d["encodings"] += 2
     # structural: trailing arguments / stacked p
-    if declare:
+    if declare and not grouped:
         ni = A.names_in()
         if compact <= 0:
             if ni[-len(declare):] != declare:
@@ -140,6 +173,11 @@ def main():
             picks = subsets_q if k < 3 else [subsets_q[(k * 3 + j * 5) % len(subsets_q)] for j in range(3)] + [KINDS]
             for j, sub in enumerate(picks):
                 items.append((t.to_json(), ("SX", "MX")[(k + j) % 2], (k + j) % 3, sub, args.seed + k, timeout, bool((k + j) % 2)))
+    # one declared vector per parameter kind (a concatenation of symbols is a legitimate declared parameter)
+    for k, t in enumerate(K):
+        if args.thorough or k % 3 == 0:
+            for st in ("SX", "MX"):
+                items.append((t.to_json(), st, (k + (st == "MX")) % 3, ("rhocrit", "vfree", "a", "T") if k % 2 else ("rhocrit", "C", "tau"), args.seed + k, timeout, False, True))
     if args.only:
         items = [it for it in items if args.only in it[0]["name"]]
     results = harness.pmap(work, items, args.serial)
